@@ -61,28 +61,27 @@ fn enc_dec(op: OpCode) {
     }
 }
 fn any_u256() -> ethnum::U256 { ethnum::U256::from_words(kani::any(), kani::any()) }
+// one concrete opcode after the other (a symbolic selector would make CBMC merge all decode paths: memory exhaustion)
 #[kani::proof] #[kani::unwind(40)]
 fn enc_dec_noarg() {
-    let sel: u8 = kani::any();
-    let op = match sel {
-        0 => OpCode::Noop, 1 => OpCode::Add, 2 => OpCode::Sub, 3 => OpCode::Mul, 4 => OpCode::Div, 5 => OpCode::Rem, 6 => OpCode::And, 7 => OpCode::Or,
-        8 => OpCode::Xor, 9 => OpCode::Not, 10 => OpCode::Eql, 11 => OpCode::Lt, 12 => OpCode::Gt, 13 => OpCode::Shl, 14 => OpCode::Shr, 15 => OpCode::Store,
-        16 => OpCode::Load, 17 => OpCode::VRef, 18 => OpCode::VAppend, 19 => OpCode::VEmpty, 20 => OpCode::VLength, 21 => OpCode::VSlice, 22 => OpCode::VSet,
-        23 => OpCode::VPush, 24 => OpCode::VCons, 25 => OpCode::BRef, 26 => OpCode::BAppend, 27 => OpCode::BEmpty, 28 => OpCode::BLength, 29 => OpCode::BSlice,
-        30 => OpCode::BSet, 31 => OpCode::BPush, 32 => OpCode::BCons, 33 => OpCode::ItoB, 34 => OpCode::BtoI, 35 => OpCode::TypeQ, _ => OpCode::Dup,
-    };
-    enc_dec(op)
+    enc_dec(OpCode::Noop); enc_dec(OpCode::Add); enc_dec(OpCode::Sub); enc_dec(OpCode::Mul); enc_dec(OpCode::Div); enc_dec(OpCode::Rem);
+    enc_dec(OpCode::And); enc_dec(OpCode::Or); enc_dec(OpCode::Xor); enc_dec(OpCode::Not); enc_dec(OpCode::Eql); enc_dec(OpCode::Lt); enc_dec(OpCode::Gt);
+    enc_dec(OpCode::Shl); enc_dec(OpCode::Shr); enc_dec(OpCode::Store); enc_dec(OpCode::Load); enc_dec(OpCode::VRef); enc_dec(OpCode::VAppend);
+}
+#[kani::proof] #[kani::unwind(40)]
+fn enc_dec_noarg2() {
+    enc_dec(OpCode::VEmpty); enc_dec(OpCode::VLength); enc_dec(OpCode::VSlice); enc_dec(OpCode::VSet); enc_dec(OpCode::VPush); enc_dec(OpCode::VCons);
+    enc_dec(OpCode::BRef); enc_dec(OpCode::BAppend); enc_dec(OpCode::BEmpty); enc_dec(OpCode::BLength); enc_dec(OpCode::BSlice); enc_dec(OpCode::BSet);
+    enc_dec(OpCode::BPush); enc_dec(OpCode::BCons); enc_dec(OpCode::ItoB); enc_dec(OpCode::BtoI); enc_dec(OpCode::TypeQ); enc_dec(OpCode::Dup);
 }
 #[kani::proof] #[kani::unwind(40)]
 fn enc_dec_args() {
-    let sel: u8 = kani::any();
-    let a: u16 = kani::any();
-    let b: u16 = kani::any();
-    let op = match sel {
-        0 => OpCode::Exp(a as u8), 1 => OpCode::Hash(a), 2 => OpCode::SigEOk(a), 3 => OpCode::StoreImm(a), 4 => OpCode::LoadImm(a),
-        5 => OpCode::Bez(a), 6 => OpCode::Bnz(a), 7 => OpCode::Jmp(a), _ => OpCode::Loop(a, b),
-    };
-    enc_dec(op)
+    enc_dec(OpCode::Exp(kani::any())); enc_dec(OpCode::Hash(kani::any())); enc_dec(OpCode::SigEOk(kani::any())); enc_dec(OpCode::StoreImm(kani::any()));
+    enc_dec(OpCode::LoadImm(kani::any()));
+}
+#[kani::proof] #[kani::unwind(40)]
+fn enc_dec_args2() {
+    enc_dec(OpCode::Bez(kani::any())); enc_dec(OpCode::Bnz(kani::any())); enc_dec(OpCode::Jmp(kani::any())); enc_dec(OpCode::Loop(kani::any(), kani::any()));
 }
 #[kani::proof] #[kani::unwind(40)]
 fn enc_dec_pushi() { enc_dec(OpCode::PushI(any_u256())) }
